@@ -272,6 +272,63 @@ def run_tg_op(case):
     return {"classes": sorted(classes), "nontrivial": nt or mutator}
 
 
+# ------------------------------------------------- textgrids whose span is not (fully) set yet
+
+
+@st.composite
+def blank_tg_cases(draw):
+    style = draw(gen.STYLES_ARITH)
+    other = draw(gen.textgrid(style=style, max_tiers=2, label=gen.AB))
+    return {"minT": draw(st.sampled_from([None, None, 0.0, 2.0])), "maxT": draw(st.sampled_from([None, None, 5.0, 1.0])),
+            "other": other, "kind": draw(st.sampled_from(["add", "add", "append", "merge", "new", "validate", "crop", "edit"])),
+            "span": draw(st.sampled_from([[0.0, 4.0], [1.0, 7.5], [3.0, 6.0]])),
+            "mode": draw(st.sampled_from(["silence", "warning", "error", "error", "bogus"])),
+            "index": draw(st.one_of(st.none(), st.integers(-1, 2)))}
+
+
+def run_blank_tg(case):
+    """A Textgrid() whose minTimestamp/maxTimestamp are still None (or only one of them is set) as receiver."""
+    p = P()
+    tg = p.Textgrid(case["minT"], case["maxT"])
+    other = mk_tg(case["other"])
+    before, obefore = snap_tg(tg), snap_tg(other)
+    kind = case["kind"]
+    mutator = kind == "add"
+    exc = None
+    try:
+        with quiet():
+            if kind == "add":
+                sp = case["span"]
+                tg.addTier(p.IntervalTier("n", [p.Interval(sp[0], (sp[0] + sp[1]) / 2, "x")], sp[0], sp[1]), case["index"], case["mode"])
+            elif kind == "append":
+                tg.appendTextgrid(other, True)
+                tg.appendTextgrid(other, False)
+            elif kind == "merge":
+                tg.mergeTiers()
+            elif kind == "new":
+                tg.new()
+            elif kind == "validate":
+                tg.validate("silence")
+            elif kind == "crop":
+                tg.crop(0.5, 1.5, "truncated", False)
+            elif kind == "edit":
+                tg.editTimestamps(0.5, "silence")
+    except Exception as e:  # noqa - whatever a half-initialised textgrid answers, it answers without changing
+        exc = e
+        note_accept(f"blank:{kind}:{type(e).__name__}")
+    after = snap_tg(tg)
+    if snap_tg(other) != obefore:
+        raise Violation(f"argument-mutated:{kind}", "the argument textgrid changed")
+    if (exc is not None or not mutator) and after != before:
+        tag = "not-atomic" if mutator else ("mutated-on-failure" if exc is not None else "mutated")
+        raise Violation(f"{tag}:{kind}", f"{kind} on Textgrid({case['minT']}, {case['maxT']})" + (f" raised {type(exc).__name__}" if exc else "")
+                        + f": receiver changed from {before} to {after}")
+    cl = [kind, "failed" if exc is not None else "ok"]
+    if exc is not None and mutator:
+        cl.append("add_failed_on_half_set_span")
+    return {"classes": cl, "nontrivial": True}
+
+
 # ------------------------------------------------------------------ failing save
 
 
@@ -397,6 +454,8 @@ def run_args(case):
 
 CHECKS = [
     Check("tier_history", run_tier_history, strategy=lambda tier: ops.histories(10), quick_n=1200, thorough_n=20000),
+    Check("blank_tg", run_blank_tg, strategy=lambda tier: blank_tg_cases(), quick_n=300, thorough_n=4000,
+          doc="receivers whose span is still (partly) None: failed or copy-returning calls leave them as they were"),
     Check("tg_ops", run_tg_op, strategy=lambda tier: tg_op_cases(), quick_n=2000, thorough_n=30000),
     Check("args", run_args, strategy=lambda tier: arg_cases(), quick_n=600, thorough_n=8000,
           doc="entry lists and sample series passed as arguments are not reordered or aliased"),
